@@ -156,10 +156,16 @@ class RW1C(FieldAction):
     def elaborate(self, platform):
         m = Module()
 
-        for i, storage_bit in enumerate(self._storage):
-            with m.If(self.port.w_stb & self.port.w_data[i]):
+        # The field shape may be an enumeration or a data layout, in which case these signals are
+        # views; storage bits are addressed through the underlying values.
+        storage = Value.cast(self._storage)
+        w_data  = Value.cast(self.port.w_data)
+        hw_set  = Value.cast(self.set)
+
+        for i, storage_bit in enumerate(storage):
+            with m.If(self.port.w_stb & w_data[i]):
                 m.d.sync += storage_bit.eq(0)
-            with m.If(self.set[i]):
+            with m.If(hw_set[i]):
                 m.d.sync += storage_bit.eq(1)
 
         m.d.comb += [
@@ -210,10 +216,16 @@ class RW1S(FieldAction):
     def elaborate(self, platform):
         m = Module()
 
-        for i, storage_bit in enumerate(self._storage):
-            with m.If(self.clear[i]):
+        # The field shape may be an enumeration or a data layout, in which case these signals are
+        # views; storage bits are addressed through the underlying values.
+        storage = Value.cast(self._storage)
+        w_data  = Value.cast(self.port.w_data)
+        hw_clr  = Value.cast(self.clear)
+
+        for i, storage_bit in enumerate(storage):
+            with m.If(hw_clr[i]):
                 m.d.sync += storage_bit.eq(0)
-            with m.If(self.port.w_stb & self.port.w_data[i]):
+            with m.If(self.port.w_stb & w_data[i]):
                 m.d.sync += storage_bit.eq(1)
 
         m.d.comb += [
